@@ -62,7 +62,7 @@ class Runner:
         spec = self.specs[name]
         inputs, missing = O.to_inputs(m, spec, ovs)
         ovs = [ov for ov in ovs if ov not in missing]
-        expected = W.evaluate(spec, O.to_cells(spec, ovs))
+        expected = W.evaluate(spec, O.to_cells(spec, ovs), fname_over=O.to_fnames(spec, ovs))
         out_ids = None
         if outs:
             out_ids = [O.node_of(m, G.node_id(spec, tuple(k))) for k in outs]
@@ -70,7 +70,7 @@ class Runner:
             if not out_ids:
                 out_ids = None
         sol = m.calculate(inputs=inputs, outputs=out_ids) if out_ids else m.calculate(inputs=inputs)
-        flat, conflicts = G.flatten(sol, supplied=set(inputs))
+        flat, conflicts = G.flatten(sol, supplied=set(inputs), raw_ok={fn['name'].upper() for fn in spec.get('fnames', [])})
         tag = '+'.join(O.ov_labels(spec, ovs)) or 'no-override'
         hist = '>'.join(t[0] for t in self.trace[-2:]) or 'start'
         # unpopulated cells of a multi-cell override: only the readers of that very rectangle are asserted (their own
@@ -156,6 +156,9 @@ class Runner:
         except sut.Watchdog:
             raise
         except Exception as ex:
+            if isinstance(ex, (AttributeError, TypeError, KeyError, IndexError, NameError, RecursionError, ArithmeticError)):
+                # not a refusal: the compiler itself fell over
+                self.fail('%s|compile-raised:%s' % (sub, type(ex).__name__), '[%s] compile(%s, %s) raised %r' % (name, in_ids, out_ids, ex))
             self.labels.append('compile-refused:%s' % type(ex).__name__)
             return
         funcs = [('compiled', func)]
@@ -324,7 +327,7 @@ def _shape_like(spec, ov, a):
 @st.composite
 def histories(draw, tier, max_ops=8, objects=('A',), copies=('deepcopy',), name_rate=3, end_with_calc=True, fcopies=False,
               start_with_copy=False, edits=False):
-    spec = draw(G.specs(tier, max_books=2, wholecols=False, name_rate=name_rate, arr_rate=4, alias_rate=3))
+    spec = draw(G.specs(tier, max_books=2, wholecols=False, name_rate=name_rate, arr_rate=4, alias_rate=3, fname_rate=6))
     path = draw(st.sampled_from(['dict', 'dict', 'file']))
     forms = [c for c in spec['cells'] if 'f' in c and 'arr' not in c]
     pop = sorted(W.populated(spec))
@@ -352,12 +355,14 @@ def histories(draw, tier, max_ops=8, objects=('A',), copies=('deepcopy',), name_
                 # the same targets as an earlier calculation, other values
                 ovs = []
                 for ov in prev[-1][2]:
-                    if ov[0] == 'cell':
+                    if ov[0] == 'fname':
+                        ovs.append(['fname', ov[1], draw(O.VALS_NOBLANK)])
+                    elif ov[0] == 'cell':
                         ovs.append(['cell', ov[1], draw(O.VALS)])
                     else:
                         ovs.append([ov[0], ov[1], [[draw(O.VALS_NOBLANK) for _ in row] for row in ov[2]]])
             else:
-                ovs = draw(O.overrides(spec, max_n=3))
+                ovs = draw(O.overrides(spec, max_n=3, kinds=('cell', 'formula', 'name', 'rect', 'cell', 'formula', 'name', 'rect', 'fname')))
             outs = None
             if pop and draw(st.integers(0, 2)) == 0:
                 outs = [list(x) for x in draw(st.lists(st.sampled_from(pop), min_size=1, max_size=3, unique=True))]
